@@ -1,4 +1,264 @@
-/- C12 — property theorems (stub; filled in by the owning work package). -/
-import Rdm.Basic
+/-
+  C12 — aspect elimination ranks in reverse order of elimination.
+  Property theorems only (helper lemmas: Rdm/Lemmas/HeurAspect.lean, HeurLinks.lean, HeurList.lean).
+  Structural theorems are generic in the number type and hold for every criteria order handed to
+  `aspectCore` (so also for every weight-compatible order when weights are tied) and every number of
+  alternatives, criteria and levels; the statements about the descending-weight order are over `Rat`.
+
+  Model: Rdm/Model/Heuristics.lean (`sortCriteriaDesc`, `isBelowThreshold`, `aspAltLoop`,
+  `aspCritLoop`, `aspLevelLoop`, `aspCheck`, `aspResult`, `aspectCore`); spec: Rdm/Spec/C12.lean.
+-/
+import Rdm.Model.Heuristics
+import Rdm.Spec.C12
+import Rdm.Lemmas.NumRat
+import Rdm.Lemmas.HeurList
+import Rdm.Lemmas.HeurLinks
+import Rdm.Lemmas.HeurAspect
+import Mathlib.Tactic.Linarith
+set_option linter.unusedSectionVars false
+set_option linter.unusedSimpArgs false
 namespace Rdm.Props.C12
+open Rdm
+variable {α : Type} [Num α]
+
+/-- **result = survivors ++ reverse eliminated**: the ranking lists the survivors (index reported:
+    `thresholdIndex + 1`, empty threshold map) and then the eliminated alternatives in reverse order of
+    elimination, each linked to its successor only -/
+theorem result_is_survivors_then_reverse_eliminated (crits : List (Crit α)) (levels : List (KMap α))
+    (alts : List (Alt α)) (out : List (Linked (AspEval α))) (h : aspectCore crits levels alts = Except.ok out) :
+    ∃ left elims si, aspCheck crits levels alts = Except.ok (left, elims, si) ∧
+      out = sequentialRanking (left.map (fun a => (a.id, (⟨si, []⟩ : AspEval α))) ++ elims.reverse) := by
+  unfold aspectCore at h
+  obtain ⟨⟨left, elims, si⟩, h1, h⟩ := R.bind_eq_ok h
+  simp [aspResult] at h
+  exact ⟨left, elims, si, h1, h.symm⟩
+
+/-- what `aspCheck` returns, for alternatives with pairwise different ids -/
+theorem check_spec (crits : List (Crit α)) (levels : List (KMap α)) (alts left : List (Alt α))
+    (elims : List (AspRes α)) (si : Nat) (hnd : (alts.map (·.id)).Nodup)
+    (h : aspCheck crits levels alts = Except.ok (left, elims, si)) :
+    (elims.map (·.1) ++ left.map (·.id)).Perm (alts.map (·.id)) ∧ left.Sublist alts ∧
+    (∀ p ∈ elims, ∃ j t, p.2.idx = j ∧ levels[j]? = some t ∧
+       ∃ pre c post, crits = pre ++ c :: post ∧ p.2 = elimReport j t c ∧
+         ∃ a ∈ alts, a.id = p.1 ∧ BelowAt a t c ∧ (∀ c' ∈ pre, NotBelowAt a t c') ∧
+           ∀ j' < j, ∀ t', levels[j']? = some t' → ∀ c' ∈ crits, NotBelowAt a t' c') ∧
+    (alts ≠ [] → 1 ≤ left.length) ∧ si ≤ levels.length ∧
+    (alts.length ≤ 1 → left = alts ∧ elims = [] ∧ si = 0) ∧
+    (2 ≤ left.length → si = levels.length ∧ ∀ a ∈ left, ∀ t ∈ levels, ∀ c ∈ crits, NotBelowAt a t c) := by
+  unfold aspCheck at h
+  by_cases hl : alts.length ≤ 1
+  · simp only [hl, if_true] at h
+    simp at h
+    obtain ⟨rfl, rfl, rfl⟩ := h
+    refine ⟨by simp, List.Sublist.refl _, by simp, ?_, by simp, fun _ => ⟨rfl, rfl, rfl⟩, fun h2 => by omega⟩
+    intro hne; cases alts with
+    | nil => simp at hne
+    | cons x xs => simp
+  · simp only [hl, if_false] at h
+    obtain ⟨p1, p2, p3, p4, p5, p6⟩ := aspLevelLoop_spec hnd (by omega) h
+    refine ⟨p1, p2, ?_, fun _ => p4, by simpa using p5, fun h1 => absurd h1 hl, ?_⟩
+    · intro p hp
+      obtain ⟨j, t, hj, hlv, pre, c, post, hsplit, r1, rest⟩ := p3 p hp
+      refine ⟨j, t, by simpa using hj, hlv, pre, c, post, hsplit, ?_, rest⟩
+      simpa using r1
+    · intro h2; simpa using p6 h2
+
+/-- **permutation**: every considered alternative is ranked exactly once -/
+theorem result_is_permutation (crits : List (Crit α)) (levels : List (KMap α)) (alts : List (Alt α))
+    (out : List (Linked (AspEval α))) (hnd : (alts.map (·.id)).Nodup)
+    (h : aspectCore crits levels alts = Except.ok out) : (out.map (·.id)).Perm (alts.map (·.id)) := by
+  obtain ⟨left, elims, si, hc, rfl⟩ := result_is_survivors_then_reverse_eliminated crits levels alts out h
+  obtain ⟨p1, _⟩ := check_spec crits levels alts left elims si hnd hc
+  rw [heurSeq_ids]
+  simp only [List.map_append, List.map_map, List.map_reverse]
+  have : (List.map (Prod.fst ∘ fun a : Alt α => (a.id, (⟨si, []⟩ : AspEval α))) left) = left.map (·.id) := by
+    simp [Function.comp_def]
+  rw [this]
+  exact (List.perm_append_comm.trans (List.Perm.append_right _ (List.reverse_perm _))).trans p1
+
+/-- **links**: entry `i` is linked to entry `i+1` only -/
+theorem links_are_sequential (crits : List (Crit α)) (levels : List (KMap α)) (alts : List (Alt α))
+    (out : List (Linked (AspEval α))) (h : aspectCore crits levels alts = Except.ok out)
+    (i : Nat) (e : Linked (AspEval α)) (he : out[i]? = some e) :
+    e.links = ((out.map (·.id))[i + 1]?).toList := by
+  obtain ⟨left, elims, si, _, rfl⟩ := result_is_survivors_then_reverse_eliminated crits levels alts out h
+  rw [heurSeq_ids]; exact heurSeq_links _ i e he
+
+/-- **the reported level / criterion / threshold is the failed check**: an entry with a non-empty
+    threshold map reports (level index ℓ, {c ↦ t_ℓ[c]}) for a level ℓ of the list and a criterion c of
+    the examination order, its alternative really is worse than t_ℓ[c] on c, **and it passed every
+    check made before that one** (criteria examined earlier at level ℓ, all criteria at every earlier
+    level); every other entry is a
+    survivor: it reports `thresholdIndex+1 ≤ #levels` and the empty map -/
+theorem entry_semantics (crits : List (Crit α)) (levels : List (KMap α)) (alts : List (Alt α))
+    (out : List (Linked (AspEval α))) (hnd : (alts.map (·.id)).Nodup)
+    (h : aspectCore crits levels alts = Except.ok out) (e : Linked (AspEval α)) (he : e ∈ out) :
+    (∃ t, levels[e.ev.idx]? = some t ∧ ∃ pre c post, crits = pre ++ c :: post ∧
+       e.ev.thr = [(c.id, levelValue t c.id)] ∧
+       ∃ a ∈ alts, a.id = e.id ∧ BelowAt a t c ∧
+         -- … having passed every check made before that one: the heavier criteria at the same level
+         (∀ c' ∈ pre, NotBelowAt a t c') ∧
+         -- and every criterion at every earlier level
+         (∀ j' < e.ev.idx, ∀ t', levels[j']? = some t' → ∀ c' ∈ crits, NotBelowAt a t' c')) ∨
+    (e.ev.thr = [] ∧ e.ev.idx ≤ levels.length ∧ ∃ a ∈ alts, a.id = e.id) := by
+  obtain ⟨left, elims, si, hc, rfl⟩ := result_is_survivors_then_reverse_eliminated crits levels alts out h
+  obtain ⟨_, p2, p3, _, p5, _, _⟩ := check_spec crits levels alts left elims si hnd hc
+  rcases List.mem_append.mp (heurSeq_mem _ e he) with hm | hm
+  · right
+    obtain ⟨a, ha, hpair⟩ := List.mem_map.mp hm
+    have hid : a.id = e.id := congrArg Prod.fst hpair
+    have hev : (⟨si, []⟩ : AspEval α) = e.ev := congrArg Prod.snd hpair
+    exact ⟨by rw [← hev], by rw [← hev]; exact p5, a, p2.subset ha, hid⟩
+  · left
+    obtain ⟨j, t, hj, hlv, pre, c, post, hsplit, r1, a, ha, hid, hb, hpre, hearlier⟩ := p3 _ (List.mem_reverse.mp hm)
+    simp only at hj r1 hid
+    refine ⟨t, by rw [hj]; exact hlv, pre, c, post, hsplit, by rw [r1]; rfl, a, ha, hid, hb, hpre, ?_⟩
+    rw [hj]; exact hearlier
+
+/-- **reverse order of elimination**: `elims` — which the ranking lists backwards after the
+    survivors — is the chronological record of the procedure: level indices never decrease along it,
+    within a level the rank of the reported criterion in the examination order never decreases, and the
+    alternatives failing one and the same check appear in the order they were examined; the survivors
+    keep their examination order -/
+theorem eliminations_are_in_check_order (crits : List (Crit α)) (levels : List (KMap α))
+    (alts left : List (Alt α)) (elims : List (AspRes α)) (si : Nat)
+    (hndc : (crits.map (·.id)).Nodup) (hnd : (alts.map (·.id)).Nodup)
+    (h : aspCheck crits levels alts = Except.ok (left, elims, si)) :
+    left.Sublist alts ∧
+    (elims.map (·.2.idx)).Pairwise (· ≤ ·) ∧
+    (∀ ℓ, ((elims.filter (fun p => p.2.idx == ℓ)).map (critRank crits)).Pairwise (· ≤ ·)) ∧
+    ∀ ℓ k, ((elims.filter (fun p => p.2.idx == ℓ && critRank crits p == k)).map (·.1)).Sublist (alts.map (·.id)) := by
+  refine ⟨(check_spec crits levels alts left elims si hnd h).2.1, ?_⟩
+  unfold aspCheck at h
+  by_cases hl : alts.length ≤ 1
+  · simp only [hl, if_true] at h
+    simp at h
+    obtain ⟨_, rfl, _⟩ := h
+    simp
+  · simp only [hl, if_false] at h
+    obtain ⟨o1, _, o3, o4⟩ := aspLevelLoop_order hndc hnd (by omega) h
+    exact ⟨o1, o3, o4⟩
+
+/-- **stop rule**: elimination never removes the last alternative — with at least one alternative at
+    least one survives, hence at most `n − 1` are ever eliminated -/
+theorem at_least_one_survivor (crits : List (Crit α)) (levels : List (KMap α)) (alts left : List (Alt α))
+    (elims : List (AspRes α)) (si : Nat) (hnd : (alts.map (·.id)).Nodup) (hne : alts ≠ [])
+    (h : aspCheck crits levels alts = Except.ok (left, elims, si)) :
+    1 ≤ left.length ∧ elims.length + left.length = alts.length := by
+  obtain ⟨p1, _, _, p4, _⟩ := check_spec crits levels alts left elims si hnd h
+  refine ⟨p4 hne, ?_⟩
+  have := p1.length_eq
+  simpa using this
+
+/-- **stop rule, the single survivor**: when the procedure ends with one alternative (of at least
+    two), the last elimination is the one that triggered the stop — the survivor reports the level
+    index of that elimination plus one, and it heads the ranking directly above that last eliminated one -/
+theorem single_survivor_reports_level_after_last_elimination (crits : List (Crit α)) (levels : List (KMap α))
+    (alts left : List (Alt α)) (elims : List (AspRes α)) (si : Nat) (hnd : (alts.map (·.id)).Nodup)
+    (h : aspCheck crits levels alts = Except.ok (left, elims, si)) (h2 : 2 ≤ alts.length)
+    (h1 : left.length ≤ 1) :
+    ∃ p, elims.getLast? = some p ∧ si = p.2.idx + 1 ∧ (aspResult left elims si)[left.length]? = some p := by
+  unfold aspCheck at h
+  have hl : ¬ alts.length ≤ 1 := by omega
+  simp only [hl, if_false] at h
+  obtain ⟨p, hp, hi⟩ := aspLevelLoop_stop hnd h2 h h1
+  refine ⟨p, hp, hi, ?_⟩
+  unfold aspResult
+  rw [List.getElem?_append_right (by simp)]
+  simp only [List.length_map, Nat.sub_self]
+  cases hrev : elims.reverse with
+  | nil => simp at hrev; simp [hrev] at hp
+  | cons x xs =>
+    have : elims.getLast? = some x := by
+      have := congrArg List.head? hrev
+      simpa [List.head?_reverse] using this
+    simp [← this, hp]
+
+/-- **stop rule, second half**: if two or more alternatives survive, every level was examined (the
+    survivors report `#levels`) and each survivor passed every check of every level -/
+theorem several_survivors_passed_everything (crits : List (Crit α)) (levels : List (KMap α))
+    (alts left : List (Alt α)) (elims : List (AspRes α)) (si : Nat) (hnd : (alts.map (·.id)).Nodup)
+    (h : aspCheck crits levels alts = Except.ok (left, elims, si)) (h2 : 2 ≤ left.length) :
+    si = levels.length ∧ ∀ a ∈ left, ∀ t ∈ levels, ∀ c ∈ crits, NotBelowAt a t c :=
+  (check_spec crits levels alts left elims si hnd h).2.2.2.2.2.2 h2
+
+/-- **single alternative ⇒ index 0 and no elimination** (for any levels and criteria; likewise for
+    an empty considered list) -/
+theorem single_alternative (crits : List (Crit α)) (levels : List (KMap α)) (a : Alt α) :
+    aspectCore crits levels [a] = Except.ok [⟨a.id, ⟨0, []⟩, []⟩] := rfl
+
+theorem no_alternative (crits : List (Crit α)) (levels : List (KMap α)) :
+    aspectCore crits levels ([] : List (Alt α)) = Except.ok [] := rfl
+
+/-- with no level at all nothing is eliminated and everybody reports index 0 -/
+theorem no_levels (crits : List (Crit α)) (alts : List (Alt α)) :
+    aspCheck crits [] alts = Except.ok (alts, [], 0) := by
+  unfold aspCheck; split <;> rfl
+
+/-- what "worse than the threshold" means: signed value below signed threshold -/
+theorem belowAt_iff (a : Alt α) (t : KMap α) (c : Crit α) :
+    BelowAt a t c ↔ ∃ v, a.signed c = Except.ok v ∧ v < levelValue t c.id * c.mult := by
+  unfold BelowAt isBelowThreshold
+  constructor
+  · intro h
+    obtain ⟨v, h1, h2⟩ := R.bind_eq_ok h
+    simp at h2
+    exact ⟨v, h1, h2⟩
+  · rintro ⟨v, h1, h2⟩
+    rw [h1]; simp [h2]
+
+/-- cost-criterion sign handling, over the rationals: a gain criterion fails when its value is below
+    the threshold, a cost criterion when its value is above it -/
+theorem belowAt_gain_cost (a : Alt Rat) (t : KMap Rat) (c : Crit Rat) (v : Rat) (hv : a.raw c = Except.ok v) :
+    BelowAt a t c ↔ (if c.type = "cost" then levelValue t c.id < v else v < levelValue t c.id) := by
+  rw [belowAt_iff]
+  unfold Alt.signed Crit.mult
+  rw [hv]
+  by_cases hc : c.type = "cost"
+  · simp [hc]
+  · simp [hc]
+
+/-- the examination order for pairwise distinct weights: a permutation of the criteria in
+    non-increasing weight … -/
+theorem sortCriteriaDesc_sorted (wc : List (WCrit Rat)) :
+    (sortCriteriaDesc wc).Perm wc ∧ (sortCriteriaDesc wc).Pairwise (fun a b => b.w ≤ a.w) := by
+  refine ⟨List.mergeSort_perm _ _, ?_⟩
+  have := List.pairwise_mergeSort (le := fun a b : WCrit Rat => !decide (a.w < b.w))
+    (by intro a b c h1 h2; simp at *; linarith)
+    (by intro a b; simp; rcases le_total a.w b.w with h | h <;> simp [h]) wc
+  exact this.imp (by intro a b h; simpa using h)
+
+/-- … and the only strictly descending one: for distinct weights the order `sort.Slice` produces is
+    determined, whatever its comparator draws -/
+theorem descending_order_unique (wc o : List (WCrit Rat)) (hp : o.Perm wc)
+    (hs : o.Pairwise (fun a b => b.w < a.w)) : o = sortCriteriaDesc wc := by
+  obtain ⟨sp, ss⟩ := sortCriteriaDesc_sorted wc
+  apply List.Perm.eq_of_pairwise (le := fun a b : WCrit Rat => b.w ≤ a.w) _ (hs.imp (fun h => le_of_lt h)) ss
+    (hp.trans sp.symm)
+  intro a b ha hb h1 h2
+  have hb' : b ∈ o := (hp.trans sp.symm).symm.subset hb
+  rcases pairwise_mem_cases hs ha hb' with h | h | h
+  · exact h
+  · exact absurd h (not_lt.mpr h2)
+  · exact absurd h (not_lt.mpr h1)
+
+/-
+  Not proved (checked on every run by `Spec.C12.check` on the implementation's output and by the
+  bit-exact correspondence of `aspect-evaluate` / `aspect-evaluate-some`):
+
+  theorem single_survivor_passed_all_checks_before_the_stop_partial :
+      a single survivor of ≥ 2 alternatives passed every check before the last elimination's (ℓ*, k*)
+      (proved above: it reports ℓ*+1 — `single_survivor_reports_level_after_last_elimination`; that
+      ≥ 2 survivors passed everything — `several_survivors_passed_everything`)
+  theorem model_output_passes_spec_partial (Rat) :
+      aspectCore crits levels alts = .ok out → ids Nodup → Spec.C12.explainWith alts levels crits out = "ok"
+  The other clauses of the checker are proved above on the model one by one (permutation, links,
+  survivors first, reported check is the failed one, passed all earlier checks, chronological order,
+  at least one survivor, single alternative).
+-/
+
+/-- the constants and names this property depends on were re-read from the working tree on this run
+    (none fell back to its pinned value because its declaration could not be located) -/
+theorem facts_fresh : (Rdm.Facts.staleFacts.all fun n => !["aspectTieHalf", "methodAspect", "wiringAspectArgs", "wiringIncreasingLevels"].contains n) = true := by decide
+
 end Rdm.Props.C12
